@@ -34,6 +34,7 @@ RULE += '; items may be None / falsy values; a quarter of the cases run a garbag
 RULE += '; a second stream of a same-named generator may be created in the same scope and exhausted first'
 RULE += "; the streamed generator receives keyword arguments named like a wrapper's own parameters"
 RULE += "; the second stream's source may be a partial / a callable object"
+RULE += '; source generators ending with unusual exceptions (attribute-rejecting, unrenderable, message-less, falsy)'
 LEVEL_TEXT = (
     "Four sub-claims per generated case: (a) the consumer receives exactly the items then the generator's end or its "
     "exception object; (b) probes inside the generator equal the creation environment; (c) the consumer's context "
@@ -126,7 +127,9 @@ def run_case(case) -> Outcome:  # noqa: C901, PLR0912, PLR0915
     root = logging.getLogger()
     old_level = root.level
     unraisable_before = len(env.unraisable())
-    gen_err = GenErr("gen")
+    # the generator's own exception may be an unusual one (nothing can be attached to it, it cannot be rendered, it has no
+    # message, its instances are falsy): the consumer gets that very object all the same
+    gen_err = {None: GenErr, "frozen": P.ProgFrozen, "strraises": P.ProgStrRaises, "empty": P.ProgEmpty, "falsy": P.ProgFalsy}[case.get("err_kind")]("gen")
 
     async def main(loop):
         def x_completed(metrics):
@@ -213,7 +216,7 @@ def run_case(case) -> Outcome:  # noqa: C901, PLR0912, PLR0915
                 except StopAsyncIteration:
                     obs["end"] = "stop"
                     return True
-                except GenErr as exc:
+                except (GenErr, P.ProgErr) as exc:
                     obs["end"] = ("raise", exc)
                     return True
                 obs["got"].append(item)
@@ -485,6 +488,7 @@ def strategy(tier):
             "gc_mid": (n + ba) % 4 == 1,
             "twin": ci in ("X", "XX") and (n + 2 * ba) % 3 == 1 and ["fn", "partial", "object", "partial_object"][(n + ba) % 4],
             "gen_kwargs": (n * 3 + ba) % 7,  # indices 5, 6 wrap to {} and the first set again
+            "err_kind": [None, None, "frozen", "strraises", "empty", "falsy"][(n * 5 + ba) % 6],
 
         },  # fmt: skip
         st.one_of(st.integers(0, 4), st.integers(0, 4), st.integers(5, 14)),  # also long streams (many nested scopes / records)
@@ -510,6 +514,15 @@ def enumerate_cases(tier):
                         for ba in (0, 1):
                             yield {"items": n, "end": end, "gen_nested": False, "gen_record": False, "nested_stream": False,
                                    "create_in": ci, "consume": co, "mode": mo, "break_after": ba}  # fmt: skip
+    yield from _odd_errors()
+
+
+def _odd_errors():
+    for kind in ("frozen", "strraises", "empty", "falsy"):
+        for n in (0, 2):
+            for ci, co in (("X", "same"), ("XX", "other_task"), ("none", "outside")):
+                yield {"items": n, "end": "raise", "gen_nested": False, "gen_record": False, "nested_stream": False, "create_in": ci, "consume": co, "mode": "full",
+                       "break_after": 0, "err_kind": kind}  # fmt: skip
 
 
 EXHAUSTIVE_MEANS = "all (items 0-2, end, creation, consumption placement, termination mode, break position 0-1) combinations of the plain generator"
